@@ -35,6 +35,8 @@ MESH_CONE_HEADER = """From Coq Require Import QArith List.
 From D3 Require Import Base.Vec Checker.Shapes Checker.ShapesMeshCone.
 Import ListNotations.
 """
+HISTORY_SHARE = 0.4  # share of the cases (kinds with update_pose) whose collider is brought to its pose by update_pose calls
+HIST_DIRS = 4        # = harness/impl/c03.py HIST_DIRS
 CASE_CPU = 40        # seconds of user CPU time one case may burn in a shared worker (normal: < 1 s)
 CONFIRM_CPU = 600    # ... when re-run alone, before it is reported as non-terminating
 
@@ -136,6 +138,16 @@ def gen_case(rng, kind, stream):
     margin = None
     if rng.random() < 0.3:
         margin = rng.choice(sc.LATTICE) if stream in ("lattice", "exact") else 10 ** rng.uniform(-2, 1)
+    history = None
+    if kind in sc.POSE_KINDS and rng.random() < HISTORY_SHARE:
+        # the collider reaches the pose of `sh` through update_pose calls on a re-used pose array
+        history = sc.gen_pose_history(rng, sh, stream)
+        if kind in ("sphere", "disk", "ellipse"):
+            Rf = [[sh["a0"][i], sh["a1"][i], sc.cross3(sh["a0"], sh["a1"])[i]] for i in range(3)] if kind == "ellipse" \
+                else sc.gen_rotation(rng, stream if stream != "degen" else "random")
+            if kind == "disk":
+                Rf = sc.frame_with_third_column(Rf, sh["n"])
+            sh = sc.with_pose(sh, Rf, sh["c"])
     nd = rng.randint(1, 22) if kind == "mesh" else rng.randint(3, 6)
     dirs = []
     classes = DIR_CLASSES + (["cone_switch"] * 3 if kind == "cone" else [])
@@ -158,8 +170,11 @@ def gen_case(rng, kind, stream):
         # repeated and opposite queries exercise the cached start vertex
         dirs[1] = dict(cls="repeat", d=list(dirs[0]["d"]))
         dirs[2] = dict(cls="opposite", d=[-x for x in dirs[0]["d"]])
-    return dict(shape=sh, margin=margin, dirs=[x["d"] for x in dirs], dir_cls=[x["cls"] for x in dirs],
+    case = dict(shape=sh, margin=margin, dirs=[x["d"] for x in dirs], dir_cls=[x["cls"] for x in dirs],
                 shared_dir_buffer=rng.random() < 0.5)
+    if history is not None:
+        case["history"] = history
+    return case
 
 
 def face_normal_case(rng):
@@ -228,9 +243,10 @@ def coq_case_expr(case, res):
                         for key, val in res["connections"])
         shc = sc.clist(sc.cnat(x) for x in res["shortcuts"])
         ds = sc.clist(sc.cv(d) for d in case["dirs"])
-        i0 = sc.cnat(res["first_idx0"])
+        i0 = sc.cnat(res["first_idx0"])                      # the vertex cached when the sequence starts
+        ic = sc.cnat(res.get("first_idx_ctor", res["first_idx0"]))   # ... of a newly constructed object
         seq = f"mql (mesh_queries {FUEL} T vs conn shc {i0} ds)"
-        fresh = f"map (fun d => mql (mesh_queries {FUEL} T vs conn shc {i0} [d])) ds"
+        fresh = f"map (fun d => mql (mesh_queries {FUEL} T vs conn shc {ic} [d])) ds"
         fv = "ov3l (first_vertex_mesh T vs)"
         ce = f"v3l (center_mesh T vs {cm.fhex(float(len(sh['vs'])))})"
         sweep = "[]"
@@ -360,7 +376,7 @@ def judge_member(sh, p, L, what):
     if not sc.finite(p) or len(p) != 3:
         return [f"{what}: non-finite or malformed answer {p}"]
     pq = sc.Fv(p)
-    if sh["kind"] in ("hull", "mesh") and what == "center":
+    if sh["kind"] in ("hull", "mesh") and what.endswith("center"):
         vs = sc.world_vertices(sh)
         mean = [sum(v[i] for v in vs) / len(vs) for i in range(3)]
         err = max(abs(a - b) for a, b in zip(pq, mean))
@@ -378,6 +394,20 @@ def judge_case(case, r):
         return [f"raised {r['exc']}: {r.get('exc_msg', '')}"]
     for i, (d, s) in enumerate(zip(case["dirs"], r["sup"])):
         fails += judge_point(sh, case["margin"], d, s, L, f"support_function(dirs[{i}])")
+    hist = case.get("history")
+    if hist is not None:
+        how = ("the pose array handed to the constructor" if hist["ctor_array"] else "the array of the first update_pose") + \
+              (" (matrix 1 of a (3,4,4) stack)" if hist.get("stack") else "")
+        ctx = (f"[history: constructed at another pose, then {len(hist['mids']) + 1} update_pose call(s); {how} is overwritten in place "
+               f"and passed to update_pose again] ")
+        fails = [ctx + f for f in fails]
+        for si, (shs, ob) in enumerate(zip(sc.history_stage_shapes(sh, hist), r.get("stages") or [])):
+            Ls = sc.shape_L(shs, case["margin"] or 0.0)
+            where = "after construction" if si == 0 else f"after update_pose #{si} of the history"
+            for i, (d, s) in enumerate(zip(case["dirs"], ob["sup"])):
+                fails += judge_point(shs, case["margin"], d, s, Ls, f"{where}: support_function(dirs[{i}])")
+            fails += judge_member(shs, ob["first_vertex"], Ls, f"{where}: first_vertex")
+            fails += judge_member(shs, ob["center"], Ls, f"{where}: center")
     for m in r.get("modified") or []:
         fails.append(f"{m} (the shape a collider describes must not change by asking for support points)")
     if r.get("again0") is not None and r["sup"]:
@@ -530,8 +560,8 @@ def compare_case(case, r, m, stats):
         conn_impl = {int(k): [int(x) for x in v] for k, v in r["connections"]}
         if {k: set(v) for k, v in conn_impl.items()} != edges or any(len(set(v)) != len(v) for v in conn_impl.values()):
             diffs.append(f"mesh connections differ from the undirected edge graph of the triangles: {sorted(conn_impl.items())[:3]} ...")
-        if r["first_idx0"] != min(used_impl):
-            diffs.append(f"mesh first_idx after construction {r['first_idx0']} != min(triangles) {min(used_impl)}")
+        if r.get("first_idx_ctor", r["first_idx0"]) != min(used_impl):
+            diffs.append(f"mesh first_idx after construction {r.get('first_idx_ctor', r['first_idx0'])} != min(triangles) {min(used_impl)}")
         model_pts = [add_margin(p, d, case["margin"]) for (_, p), d in zip(seq, case["dirs"])]
         model_idx = [i for i, _ in seq]
         if len(seq) != len(case["dirs"]):
